@@ -149,6 +149,9 @@ func init() {
 		if r.unknownViolations() == 0 {
 			replicaLogout(r) // redirect and callback served by different instances on one Redis, the callback replayed at the first
 		}
+		if r.unknownViolations() == 0 {
+			consistencyHammer(r, "[C04]")
+		}
 		if r.unknownViolations() > 0 {
 			r.Finish("interleavings of login callbacks under the controlled scheduler; logins spread over two instances")
 			return
